@@ -520,6 +520,7 @@ def readBranches {π β} (h : Hist π) (pl : Plug π β) : Bool → Repo β → 
 /-- `RGraph` -/
 structure Graph (β : Type) where
   rcs : List RC
+  builds : List (RB β)          -- `self.brcommits` : every build that has a build commit, creation order
   all : List (RBranch β)        -- every branch read, processing order (lower-sorted first)
   branches : List (RBranch β)   -- `self.branches` : reversed, branches without builds dropped
 
@@ -529,7 +530,8 @@ def rgraph {π β} (h : Hist π) (pl : Plug π β) : Except Err (Graph β) :=
   match readBranches h pl true Repo.empty (branchesOf h) with
   | .error e => .error e
   | .ok (rp, rbs) =>
-    .ok { rcs := rp.rcs, all := rbs, branches := rbs.reverse.filter (fun rb => !rb.rbuilds.isEmpty) }
+    .ok { rcs := rp.rcs, builds := rp.builds, all := rbs,
+          branches := rbs.reverse.filter (fun rb => !rb.rbuilds.isEmpty) }
 
 /-! ## the report (what `get_rbuilds_list` / `get_printable_rcommits` show) -/
 
